@@ -29,6 +29,9 @@ func ReplayViolation(v *explore.Violation) (bool, string) {
 	if err != nil {
 		return false, err.Error()
 	}
+	if v.Property == "C06" && v.Signature == "cycle" {
+		return replayCycle(&cfg, ops)
+	}
 	for _, mode := range []string{"replay", "clone"} {
 		rep := explore.NewReport(v.Property, "replay")
 		run := &Run{Cfg: &cfg, Rep: rep, Vis: mk(), Property: v.Property, Mode: mode}
@@ -126,3 +129,60 @@ func goTest(c *Config, hist []string) string {
 func jsonUnmarshal(b []byte, v any) error { return json.Unmarshal(b, v) }
 
 func jsonMarshal(v any) ([]byte, error) { return json.Marshal(v) }
+
+// replayCycle confirms an endless play: from the state reached by the recorded history (replayed
+// on one genuine game) a bounded breadth-first search over the same alphabet must come back to a
+// state it has already been in on the same path (here: any state reachable from itself).
+func replayCycle(cfg *Config, hist []Op) (bool, string) {
+	type item struct {
+		ops []Op
+		key string
+	}
+	g, err := Replay(cfg, hist)
+	if err != nil {
+		return false, "history does not replay: " + err.Error()
+	}
+	vis := &c06{}
+	start := string(StateJSON(g.GetState()))
+	// successors of a state given by its operation list
+	succ := func(ops []Op) []item {
+		g, err := Replay(cfg, ops)
+		if err != nil {
+			return nil
+		}
+		gs := g.GetState()
+		if gs.Status.CurrentEvent == "GameClosed" {
+			return nil
+		}
+		x := &Ctx{Run: &Run{Cfg: cfg, Mode: "replay"}, hist: []string{}}
+		alphabet := append(Alphabet(cfg, gs), vis.ExtraOps(x, &St{GS: gs})...)
+		var out []item
+		for _, op := range alphabet {
+			g2, err := Replay(cfg, ops)
+			if err != nil {
+				continue
+			}
+			if e, p := Apply(g2, op); e != nil || p != "" {
+				continue
+			}
+			out = append(out, item{append(append([]Op{}, ops...), op), string(StateJSON(g2.GetState()))})
+		}
+		return out
+	}
+	seen := map[string]bool{}
+	frontier := []item{{hist, start}}
+	for steps := 0; len(frontier) > 0 && steps < 3000; steps++ {
+		it := frontier[0]
+		frontier = frontier[1:]
+		for _, nx := range succ(it.ops) {
+			if nx.key == start {
+				return true, fmt.Sprintf("the state after the recorded history is reached again after %d more operations: %v", len(nx.ops)-len(hist), labels(nx.ops[len(hist):]))
+			}
+			if !seen[nx.key] {
+				seen[nx.key] = true
+				frontier = append(frontier, nx)
+			}
+		}
+	}
+	return false, "no way back to the recorded state found within the search bound"
+}
